@@ -109,6 +109,14 @@ func (fr *Frame) call(st *State, c *ast.CallExpr) []Val {
 		// recursion: use own contract
 		return fr.contractCall(st, c, fn, ct)
 	}
+	switch fn.FullName() {
+	case "sort.Slice", "sort.SliceStable", "sort.Sort", "sort.Stable", "sort.Strings", "sort.Ints", "sort.Float64s":
+		// in-place mutators: slices are values in the model, so whose backing array is permuted
+		// is unknown - the call counts as touching the whole heap (a function with a modifies
+		// clause may only sort where that is unreachable, see frame:*)
+		x.used("sort.* permute a backing array in place: modelled as a whole-heap havoc")
+		return fr.unknownCall(st, c, fn)
+	}
 	if x.eng.isPurePkg(fn) {
 		fr.labelCardinality(st, c, fn)
 		return fr.pureCall(st, c, fn)
